@@ -12,8 +12,8 @@ Accepted fragment
   def          positional-or-keyword parameters, defaults = literal (None / bool / int / float / str); no decorator,
                *args, **kwargs, nested def.
   statements   x = e | x1, ..., xk = e | x op= e (op: + - * /) | x[i] = e | x.append(e) |
-               if / elif / else | for <name or tuple of names> in e: (no else, no break / continue) |
-               while e: (no else, no break / continue) | return e | raise <Exception>(<literal message>) | pass
+               if / elif / else | for <name or tuple of names, one level of nesting> in e: (no else, no break) |
+               while e: (no else, no break) | continue (inside a loop) | return e | raise <Exception>(<literal message>) | pass
                (no statement after a return / raise in the same block)
   expressions  parameters and locals, None / bool / int / float / str literals, -<number literal>, tuples, lists,
                comparisons (== != < <= > >=, `is None`, `is not None`; no chains), not / and / or, + - * /,
@@ -24,7 +24,8 @@ Accepted fragment
                collections.defaultdict(lambda: c) with c an int literal or slice(<int literal>),
                np.argsort np.unique np.sum np.concatenate np.mod np.asarray scipy.sparse.lil_matrix (positional and
                keyword arguments as written; int / float / np.uint8 as dtype values),
-               e.shape, e.toarray(), e.tocsr(), e.ravel(), e.astype(int),
+               e.shape, e.toarray(), e.tocsr(), e.ravel(), e.astype(int), e.any(), np.array_equal, np.equal.outer, np.triu,
+               np.where, scipy.sparse.csr_matrix, zip(*e), slice(*e), util.index_labels (opaque),
                calls of the functions of FUNCS (opaque, arguments as written: positional and keyword).
 What this file decides itself
   * which names are locals (Python's rule); that every function translated or called has exactly one top-level def and is
@@ -52,13 +53,14 @@ BUILTINS = {'len': (1, 1), 'float': (1, 1), 'int': (1, 1), 'min': (1, 2), 'max':
             'range': (1, 1), 'enumerate': (1, 2), 'zip': (1, 8), 'slice': (1, 2)}      # name: (min, max) positional arguments
 TYPES = {'int', 'float', 'np.uint8'}
 LIBFUNCS = {'np.argsort', 'np.unique', 'np.sum', 'np.concatenate', 'np.mod', 'np.asarray', 'scipy.sparse.lil_matrix',
-            'itertools.combinations', 'itertools.tee', 'np.equal.outer', 'np.triu', 'np.where', 'scipy.sparse.csr_matrix'}
+            'itertools.combinations', 'itertools.tee', 'np.equal.outer', 'np.triu', 'np.where', 'scipy.sparse.csr_matrix',
+            'np.array_equal'}
 LIB_FRESH = LIBFUNCS - {'np.asarray', 'itertools.tee'}               # results that no other reference can reach
-METHODS = {'toarray': 0, 'tocsr': 0, 'ravel': 0, 'astype': 1}         # name: number of positional arguments
+METHODS = {'toarray': 0, 'tocsr': 0, 'ravel': 0, 'astype': 1, 'any': 0}         # name: number of positional arguments
 ATTRS = {'shape'}
 ITER_PRODUCERS = {'itertools.chain', 'itertools.combinations', 'itertools.tee', 'zip'}
 COPYING = set(BUILTINS) | {'np.argsort', 'np.unique', 'np.sum', 'np.concatenate', 'np.mod', 'scipy.sparse.lil_matrix',
-                           'np.equal.outer', 'np.triu', 'np.where', 'scipy.sparse.csr_matrix'}       # results never alias their arguments' containers
+                           'np.equal.outer', 'np.triu', 'np.where', 'scipy.sparse.csr_matrix', 'np.array_equal'}       # results never alias their arguments' containers
 MUTATING = {'update', 'pop', 'popitem', 'clear', 'setdefault', 'append', 'extend', 'insert', 'remove', 'add', 'discard',
             'sort', 'reverse', 'fill', 'put', 'resize', 'itemset', 'difference_update', 'intersection_update',
             'symmetric_difference_update', '__setitem__', '__delitem__', '__iadd__', '__ior__', 'setdiag', 'eliminate_zeros',
@@ -351,7 +353,7 @@ class Fn:
             if full in COPYING:
                 return set()
             if isinstance(e.func, ast.Attribute) and e.func.attr in METHODS and full not in LIBFUNCS:
-                return set() if e.func.attr in ('toarray', 'tocsr', 'astype') else self.escaping(e.func.value)
+                return set() if e.func.attr in ('toarray', 'tocsr', 'astype', 'any') else self.escaping(e.func.value)
             args = list(e.args) + [k.value for k in e.keywords]
             return set().union(*[self.escaping(x) for x in args]) if args else set()
         return set()           # constants, arithmetic, comparisons, not: new or immutable objects
